@@ -298,3 +298,118 @@ func VH_XR2_blockfields() {
 	vAssert((rerr == io.EOF) == want, "clean end iff declared sizes equal the measured ones, padding zero, check matches")
 	vAssert(vIsPrefix(out, content), "delivered bytes are a prefix of the content")
 }
+
+// ---- XW1 (C09, C02, C01): blockWriter.Write/Close over a model filter ---------
+
+// vModelFW is an arbitrary compression filter on the write side: each Write
+// accepts `accept` bytes (at most len(p)), forwards `emit` arbitrary bytes to
+// the block's sink and may fail.
+type vModelFW struct {
+	w      io.Writer
+	accept int
+	emit   []byte
+	fail   error
+	tail   []byte // written on Close
+	closed bool
+}
+
+func (m *vModelFW) Write(p []byte) (int, error) {
+	if len(m.emit) > 0 {
+		if _, err := m.w.Write(m.emit); err != nil {
+			return 0, err
+		}
+	}
+	if m.fail != nil { // a failing write may have accepted part of the data
+		n := m.accept
+		if n > len(p) {
+			n = len(p)
+		}
+		return n, m.fail
+	}
+	return len(p), nil // io.Writer contract: a short write must come with an error
+}
+
+func (m *vModelFW) Close() error {
+	m.closed = true
+	if len(m.tail) > 0 {
+		if _, err := m.w.Write(m.tail); err != nil {
+			return err
+		}
+	}
+	return nil
+}
+
+var vTheFW *vModelFW
+
+func vModelWriteCloser(f lzmaFilter, w io.WriteCloser, c *WriterConfig) (io.WriteCloser, error) {
+	vTheFW.w = w
+	return vTheFW, nil
+}
+
+func VH_XW1_block() {
+	vSubst("(lzmaFilter).writeCloser", vModelWriteCloser)
+	ck := vChecks[vConcretize(int(vNondetU8("check"))%3)]
+	nh, err := newHashFunc(ck)
+	vAssert(err == nil, "hash constructor")
+	blockSize := vNondetI64("blockSize")
+	vAssume(blockSize >= 1)
+	cfg := &WriterConfig{DictCap: 4096, BufSize: 4096, BlockSize: blockSize}
+	vTheFW = &vModelFW{emit: vNondetBytes("emit", vConcretize(int(vNondetU8("emitLen"))%3)), tail: vNondetBytes("tail", vConcretize(int(vNondetU8("tailLen"))%3))}
+	sink := &vSink{failFrom: -1}
+	bw, err := cfg.newBlockWriter(sink, nh())
+	vAssert(err == nil, "block writer constructed")
+	vAssert(bw.writeHeader(sink) == nil && bw.headerLen > 0 && bw.headerLen%4 == 0, "block header written")
+	hdrLen := len(sink.buf)
+	// the block already holds n0 bytes
+	n0 := vNondetI64("n0")
+	vAssume(n0 >= 0 && n0 <= blockSize)
+	bw.n = n0
+	plen := vConcretize(int(vNondetU8("plen")) % 5)
+	p := vNondetBytes("p", plen)
+	vTheFW.accept = vConcretize(int(vNondetU8("accept")) % 5)
+	if vNondetBool("filterFails") {
+		vTheFW.fail = vErrSink
+	}
+	n, werr := bw.Write(p)
+	room := blockSize - n0
+	offered := int64(plen)
+	if offered > room {
+		offered = room
+	}
+	vAssert(int64(n) <= offered && n >= 0, "never passes more than the room left in the block to the filter")
+	wantN := int(offered)
+	if vTheFW.fail != nil && vTheFW.accept < wantN {
+		wantN = vTheFW.accept
+	}
+	vAssert(n == wantN && bw.n == n0+int64(n), "count = what the filter accepted; block size accounting follows it")
+	if vTheFW.fail != nil {
+		vAssert(werr == vErrSink, "a failing filter/sink error is returned, never masked by the block-full signal")
+	} else if int64(plen) > room {
+		vAssert(werr == errNoSpace, "a call that does not fit reports the block-full signal")
+	} else {
+		vAssert(werr == nil, "a call that fits succeeds")
+	}
+	if werr == vErrSink {
+		return
+	}
+	// Close: filter closed, padding to a multiple of four, then the check over all accepted bytes
+	comp := len(sink.buf) - hdrLen
+	vAssert(bw.Close() == nil && vTheFW.closed, "Close closes the filter")
+	comp += len(vTheFW.tail)
+	pad := int(specPad(int64(comp)))
+	s := specCheckSize(ck)
+	vAssert(len(sink.buf) == hdrLen+comp+pad+s, "block = header, compressed data, padding to a multiple of four, check")
+	var padBits byte
+	for i := 0; i < pad; i++ {
+		padBits |= sink.buf[hdrLen+comp+i]
+	}
+	vAssert(padBits == 0, "padding bytes are zero")
+	if n0 == 0 {
+		vAssert(bytes.Equal(sink.buf[hdrLen+comp+pad:], vHashOf(ck, p[:n])), "check value = hash of exactly the bytes accepted into the block")
+	}
+	rec := bw.record()
+	vAssert(rec.uncompressedSize == n0+int64(n) && rec.unpaddedSize == int64(hdrLen+comp+s), "index record = measured sizes")
+	vAssert(bw.Close() == errClosed, "second Close fails")
+	_, err = bw.Write(p)
+	vAssert(err == errClosed, "Write after Close fails")
+}
